@@ -114,8 +114,8 @@ func (w *watchEngine) Start(ctx context.Context, r *scan.Range) (<-chan interfac
 	done2 := make(chan interface{})
 	go func() {
 		<-done
-		w.startedAtDone = atomic.LoadInt64(&w.sc.started)
-		w.finishedAtDone = atomic.LoadInt64(&w.sc.finished)
+		atomic.StoreInt64(&w.startedAtDone, atomic.LoadInt64(&w.sc.started))
+		atomic.StoreInt64(&w.finishedAtDone, atomic.LoadInt64(&w.sc.finished))
 		atomic.StoreInt32(&w.doneSeen, 1)
 		close(done2)
 	}()
@@ -216,7 +216,7 @@ func runCase(idx int, class string, w, cap int, reqs []req, cancelAt int, delay 
 	}
 	o.ElapsedMs = time.Since(t0).Milliseconds()
 	o.DoneSeen = atomic.LoadInt32(&engine.doneSeen) != 0
-	o.StartedAtDone, o.FinishedAtDone = engine.startedAtDone, engine.finishedAtDone
+	o.StartedAtDone, o.FinishedAtDone = atomic.LoadInt64(&engine.startedAtDone), atomic.LoadInt64(&engine.finishedAtDone)
 	sc.mu.Lock()
 	for id, n := range sc.calls {
 		for i := 0; i < n; i++ {
